@@ -37,6 +37,13 @@ class LoopSpec:
                 v = I.fresh(name, kind)
             env.assign(name, v)
 
+    def snapshot(self, env):
+        """immutable copy of the variables at loop entry (mutable symbolic lists are frozen to their current value)"""
+        out = {}
+        for k, v in self.view(env).items():
+            out[k] = SList(v.sym) if isinstance(v, SList) else (list(v) if isinstance(v, list) else v)
+        return out
+
     def view(self, env):
         out = {}
         e = env
@@ -59,6 +66,11 @@ class LoopSpec:
         empty = z3.StringVal("") if is_str else z3.Empty(sort)
         c = I.ctx
         where = f"{I.call_stack[-1]} loop@{st.lineno}"
+        entry = self.snapshot(env)
+        self.entry_key = f"$entry@{st.lineno}"
+        env.vars[self.entry_key] = entry
+        for h in self.hints(I, self.view(env), "entry", None, empty, total, total):
+            c.assume(h)
         for label, cond in self.inv(I, self.view(env), empty, total, total):
             c.require(cond, f"loop invariant holds on entry: {label}", kind="VC", site=where)
         choice = I.fresh("loop_iter", "bool")
@@ -82,7 +94,7 @@ class LoopSpec:
                 c.assume(cond)
             for h in self.hints(I, self.view(env), "pre", x, done, rest2, total):
                 c.assume(h)
-            I.assign_target(st.target, xv, env, module, cls)
+            I.assign_target(st.target, I.force(xv), env, module, cls)
             try:
                 I.exec_block(st.body, env, module, cls)
             except ContinueSig:
